@@ -1,5 +1,5 @@
-import SciVerif.Drive.Util
+import SciVerif.Drive.C06
 open Lean SciVerif.Drive
 
-/-- C06 model driver: not built yet. -/
-def main : IO Unit := serve (fun _ => throw "C06: no model yet")
+/-- C06 model driver: quantity arithmetic (`k = "qty"`) and magnitudes (`k = "mag"`). -/
+def main : IO Unit := serve SciVerif.C06.Drive.handle
